@@ -312,7 +312,7 @@ theorem iteF_spec : ∀ (f : Nat) (m : Mgr) (g u v : Int), Inv m →
                   split <;> rfl
                 have hlvl : z ≤ m3.tbl.levelOf w := hfo.lvl
                 have hentry : CacheEntryOK m3.tbl g u v w := by
-                  refine ⟨e123.mem hg, e123.mem hu, e123.mem hv, hfo.mem, ?_, ?_⟩
+                  refine ⟨hgn, e123.mem hg, e123.mem hu, e123.mem hv, hfo.mem, ?_, ?_⟩
                   · rw [e123.levelOf hg, e123.levelOf hu, e123.levelOf hv, hz]; exact hlvl
                   · intro a
                     rw [hden a, den_ext e123 hW g a hg, den_ext e123 hW u a hu,
